@@ -249,7 +249,7 @@ func (g *generator) walkOneOf(schema *schemaparser.Schema) (ast.Type, error) {
 		return ast.Type{}, err
 	}
 
-	return ast.NewDisjunction(branches), nil
+	return ast.NewDisjunction(branches, ast.Default(unwrapJSONNumber(schema.Default))), nil
 }
 
 // TODO: what's the difference between oneOf and anyOf?
@@ -263,7 +263,7 @@ func (g *generator) walkAnyOf(schema *schemaparser.Schema) (ast.Type, error) {
 		return ast.Type{}, err
 	}
 
-	return ast.NewDisjunction(branches), nil
+	return ast.NewDisjunction(branches, ast.Default(unwrapJSONNumber(schema.Default))), nil
 }
 
 func (g *generator) walkAllOf(schema *schemaparser.Schema) (ast.Type, error) {
@@ -294,7 +294,7 @@ func (g *generator) walkRef(schema *schemaparser.Schema) (ast.Type, error) {
 	}
 
 	// TODO: get the correct package for the referred type
-	return ast.NewRef(g.schema.Package, referredKindName), nil
+	return ast.NewRef(g.schema.Package, referredKindName, ast.Default(unwrapJSONNumber(schema.Default))), nil
 }
 
 func (g *generator) walkString(schema *schemaparser.Schema) (ast.Type, error) {
